@@ -73,6 +73,14 @@ Section Generic.
   (* NaN / fill pixels never contribute *)
   Lemma contribs_invalid (fp : list (cell * T)) c : contribs_px c (mk_pixel (@None T) fp) = [].
   Proof. reflexivity. Qed.
+
+  Lemma invalid_pixel_ignored mwm (l1 l2 : list (pixel T)) p (g : cell -> T * T) c :
+    px_val p = None ->
+    accumulate OP mwm (l1 ++ p :: l2) g c = accumulate OP mwm (l1 ++ l2) g c.
+  Proof.
+    intros Hv. rewrite !accumulate_cell. f_equal.
+    rewrite !contribs_app. f_equal. unfold contribs. cbn [flat_map]. unfold contribs_px at 1. rewrite Hv. reflexivity.
+  Qed.
 End Generic.
 
 (* ------------------------------------------------------------------ reals *)
